@@ -459,7 +459,26 @@ impl C13 {
                 ctx.out.probe("file_concurrent_writers");
                 let mut writes: Vec<(&str, &GSpec)> = vec![(sc.first_name.as_str(), &sc.g)];
                 writes.extend(sc.more.iter().map(|(g, n)| (n.as_str(), g)));
-                let spec: Vec<(GSpec, String, bool)> = writes.iter().map(|(n, g)| ((*g).clone(), io.join(n).to_string_lossy().to_string(), sc.hash_backend)).collect();
+                // the last party is a READER in a third of the runs: its file is complete before the
+                // concurrent phase starts, and it must read its own diagram back whatever the writers do
+                let reader: Option<usize> = if writes.len() >= 2 && sc.pre == 2 { Some(writes.len() - 1) } else { None };
+                if let Some(ri) = reader {
+                    ctx.out.probe("file_concurrent_with_reader");
+                    let core = Core::new(dec, 1);
+                    let gi: G = writes[ri].1.build();
+                    let p2 = io.join(writes[ri].0);
+                    let (res, core) = with_sim(core, move || quizx::json::write_graph(&gi, &p2));
+                    dec = core.dec;
+                    if !matches!(res, Caught::Ok(Ok(()))) {
+                        ctx.out.violations.push(Violation::new("write_failed_without_fault", format!("write_graph to '{}' failed with no fault injected", writes[ri].0)).with("form", "file_concurrent"));
+                        return dec;
+                    }
+                }
+                let spec: Vec<(GSpec, String, bool, bool)> = writes
+                    .iter()
+                    .enumerate()
+                    .map(|(i, (n, g))| ((*g).clone(), io.join(n).to_string_lossy().to_string(), if Some(i) == reader { sc.decode_hash_backend } else { sc.hash_backend }, Some(i) == reader))
+                    .collect();
                 let specf = dir.join("spec.json");
                 std::fs::write(&specf, serde_json::to_string(&spec).unwrap()).expect("scratch write");
                 let child_seed = dec.draw64("child.seed");
@@ -501,10 +520,28 @@ impl C13 {
                 for (i, (name, spec)) in writes.iter().enumerate() {
                     let line = txt.lines().find(|l| l.starts_with(&format!("RESULT {i} "))).unwrap_or("");
                     if !line.contains(" ok") {
-                        if fired == 0 {
+                        if fired == 0 && Some(i) == reader {
+                            ctx.out.violations.push(Violation::new("complete_file_unreadable_while_others_write", format!("parties {:?}: read_graph of '{name}', which was complete before the others started writing to OTHER names, failed: {line}", order)).with("form", "file_concurrent"));
+                        } else if fired == 0 {
                             ctx.out.violations.push(Violation::new("write_failed_without_fault", format!("concurrent writers {:?}: write_graph to '{name}' failed with no fault fired: {line}", order)).with("form", "file_concurrent"));
                         } else {
                             ctx.out.probe("fault_led_to_reported_failure");
+                        }
+                        continue;
+                    }
+                    if Some(i) == reader {
+                        // the reader's own view, handed back through an untracked file
+                        match std::fs::read_to_string(dir.join(format!("read-{i}.json"))).ok().and_then(|t| Dg::from_wire(&t)) {
+                            Some(d2) => {
+                                let sub_sc = Sc { g: (*spec).clone(), more: vec![], ..sc.clone() };
+                                let mut sub = Ctx { sc: &sub_sc, orig: spec.to_dg(), out: &mut *ctx.out, tensor: None };
+                                let before = sub.out.violations.len();
+                                sub.judge_dg(d2, "file_concurrent_reader");
+                                for v in sub.out.violations[before..].iter_mut() {
+                                    v.detail = format!("parties {:?} (the last one reads '{name}', complete before the others started writing): {}", order, v.detail);
+                                }
+                            }
+                            None => panic!("harness: reader reported ok but left no dump"),
                         }
                         continue;
                     }
@@ -908,7 +945,8 @@ pub fn child_read_graph(file: &str, hash_backend: bool, seed: u64, dump: &str) -
 pub fn child_write_concurrent(spec: &str, seed: u64) -> i32 {
     crate::simcore::install_panic_hook();
     let txt = std::fs::read_to_string(spec).expect("spec");
-    let jobs: Vec<(GSpec, String, bool)> = serde_json::from_str(&txt).expect("spec json");
+    let jobs: Vec<(GSpec, String, bool, bool)> = serde_json::from_str(&txt).expect("spec json");
+    let dump_dir = std::path::Path::new(spec).parent().map(|p| p.to_path_buf()).unwrap_or_default();
     type Hook = unsafe extern "C" fn(i32);
     let look = |name: &str| -> Option<Hook> {
         let c = std::ffi::CString::new(name).unwrap();
@@ -927,11 +965,34 @@ pub fn child_write_concurrent(spec: &str, seed: u64) -> i32 {
         }
     };
     let mut handles = vec![];
-    for (i, (g, path, hb)) in jobs.into_iter().enumerate() {
+    for (i, (g, path, hb, is_reader)) in jobs.into_iter().enumerate() {
+        let dump = dump_dir.join(format!("read-{i}.json"));
         handles.push(std::thread::spawn(move || {
             unsafe { begin(i as i32) };
             let core = Core::new(Decider::seeded(mix(seed, i as u64)), 1);
             let p = std::path::PathBuf::from(path);
+            if is_reader {
+                let (r, _core) = with_sim(core, move || {
+                    if !p.exists() {
+                        return Err("the file is gone".to_string());
+                    }
+                    if hb {
+                        quizx::json::read_graph::<quizx::hash_graph::Graph>(&p).map(|g| Dg::of(&g)).map_err(|e| e.to_string())
+                    } else {
+                        quizx::json::read_graph::<quizx::vec_graph::Graph>(&p).map(|g| Dg::of(&g)).map_err(|e| e.to_string())
+                    }
+                });
+                unsafe { end(i as i32) };
+                return match r {
+                    Caught::Ok(Ok(d)) => {
+                        std::fs::write(&dump, d.to_wire()).expect("dump");
+                        format!("RESULT {i} ok")
+                    }
+                    Caught::Ok(Err(e)) => format!("RESULT {i} err {e}"),
+                    Caught::Panic(m) => format!("RESULT {i} panic {m}"),
+                    Caught::Budget => format!("RESULT {i} budget"),
+                };
+            }
             let (r, _core) = with_sim(core, move || {
                 if hb {
                     let gg: quizx::hash_graph::Graph = g.build();
@@ -969,7 +1030,7 @@ impl Property for C13 {
         "exploration"
     }
     fn rule(&self) -> String {
-        "decider builds a diagram (<=10 spiders Z/X and structurally H-boxes, <=3 inputs and <=3 outputs, bare and Hadamard wires between boundaries, both edge types, phases with denominators up to 256 and a few beyond, unique / colliding / negative / fractional coordinates, scalar sqrt2^p w^k times (1+e^{ia}) factors) in the vector or hash backend, and then every RandomState key of every map created in encode_graph and in each of several independent decode_graph calls (so JSON member order, decoded vertex numbering and edge insertion order are recorded decisions); the file form writes through write_graph/read_graph under no fault, ENOSPC (/dev/full), a torn write at a decider-chosen byte offset (RLIMIT_FSIZE in a child process), missing directory, target is a directory, and (sub-batch file_sys) write_graph resp. read_graph in a child process under the system-call seam (LD_PRELOAD shim: short writes / short reads, EINTR and errno failures EIO/ENOSPC/EDQUOT/EMFILE/... at decider-chosen calls; diagrams above the 8 KiB buffer size in a sixth of the runs). Oracle: anchored isomorphism (inputs/outputs in order, types, phases, edge types, coordinates), exact scalar for sqrt2^p w^k and 1e-9 relative otherwise, tensor equality where evaluable, and decodes under different hash orders isomorphic to each other. Sub-batch file_multi: a history of 2..5 write_graph calls into one directory under names that share stems and extensions (g.qgraph, g.tmp, g, g.0, g.1, g.qgraph.tmp, ...; a name may repeat), after which every file must hold the diagram written to it last. Sub-batch file_concurrent: 2..3 threads of one child process write different diagrams to different names in one directory; the system-call seam's thread scheduler lets exactly one of them run at a time and switches at every file operation (open / write / close / rename / unlink) according to a decider-drawn list, so the interleaving - including what the writers do in memory between two calls - replays; every writer that reports success must find its own diagram in its file. ENOSPC targets are symbolic links to /dev/full in the scratch directory (a target the code replaced by a complete file of its own is judged by content). Scalars of the general classes reach 2^+-1000. Under faults only a reported success with a missing/undecodable/different file is a violation. Non-trivial: >=2 boundaries, >=1 Hadamard edge, >=1 non-zero phase, and a decoded numbering that differs from the original. Distinct by (scenario digest, event digest).".into()
+        "decider builds a diagram (<=10 spiders Z/X and structurally H-boxes, <=3 inputs and <=3 outputs, bare and Hadamard wires between boundaries, both edge types, phases with denominators up to 256 and a few beyond, unique / colliding / negative / fractional coordinates, scalar sqrt2^p w^k times (1+e^{ia}) factors) in the vector or hash backend, and then every RandomState key of every map created in encode_graph and in each of several independent decode_graph calls (so JSON member order, decoded vertex numbering and edge insertion order are recorded decisions); the file form writes through write_graph/read_graph under no fault, ENOSPC (/dev/full), a torn write at a decider-chosen byte offset (RLIMIT_FSIZE in a child process), missing directory, target is a directory, and (sub-batch file_sys) write_graph resp. read_graph in a child process under the system-call seam (LD_PRELOAD shim: short writes / short reads, EINTR and errno failures EIO/ENOSPC/EDQUOT/EMFILE/... at decider-chosen calls; diagrams above the 8 KiB buffer size in a sixth of the runs). Oracle: anchored isomorphism (inputs/outputs in order, types, phases, edge types, coordinates), exact scalar for sqrt2^p w^k and 1e-9 relative otherwise, tensor equality where evaluable, and decodes under different hash orders isomorphic to each other. Sub-batch file_multi: a history of 2..5 write_graph calls into one directory under names that share stems and extensions (g.qgraph, g.tmp, g, g.0, g.1, g.qgraph.tmp, ...; a name may repeat), after which every file must hold the diagram written to it last. Sub-batch file_concurrent: 2..3 threads of one child process write different diagrams to different names in one directory; the system-call seam's thread scheduler lets exactly one of them run at a time and switches at every file operation (open / write / close / rename / unlink) according to a decider-drawn list, so the interleaving - including what the writers do in memory between two calls - replays; every writer that reports success must find its own diagram in its file; in a third of the runs the last party is a reader whose file was complete before the others started writing to other names, and it must read its own diagram back. ENOSPC targets are symbolic links to /dev/full in the scratch directory (a target the code replaced by a complete file of its own is judged by content). Scalars of the general classes reach 2^+-1000. Under faults only a reported success with a missing/undecodable/different file is a violation. Non-trivial: >=2 boundaries, >=1 Hadamard edge, >=1 non-zero phase, and a decoded numbering that differs from the original. Distinct by (scenario digest, event digest).".into()
     }
     fn assumptions(&self) -> Vec<String> {
         vec![
